@@ -418,10 +418,10 @@ Lemma gen_A_rows_ok : rows_ok (n * 4 + 2) (g_trans (gen_A K L W moves rewards lo
 Proof.
   pose proof n_pos. rewrite gen_A_trans. unfold rows_ok. apply Forall_groups.
   - cells_ok.
-    + apply player_two_cell_ok; try assumption; lia.
-    + apply player_one_down_cell_ok; try assumption; [lia|]. intros w E. injection E as <-. lia.
-    + apply player_one_left_right_cell_ok; try assumption; try lia. apply Hmoves; assumption.
-    + apply prob_tile_break_cell_ok; try assumption; lia.
+    + apply (player_two_cell_ok K L W); try assumption; lia.
+    + apply (player_one_down_cell_ok K L W); try assumption; [lia|]. intros w E. injection E as <-. lia.
+    + apply (player_one_left_right_cell_ok K L W); try assumption; try lia. apply Hmoves; assumption.
+    + apply (prob_tile_break_cell_ok K L W); try assumption; lia.
   - repeat constructor; try discriminate; cbn [dst pb]; lia.
 Qed.
 
@@ -429,13 +429,13 @@ Lemma gen_B_rows_ok : rows_ok (n * 7 + 2) (g_trans (gen_B K L W moves rewards lo
 Proof.
   pose proof n_pos. rewrite gen_B_trans. unfold rows_ok. apply Forall_groups.
   - cells_ok.
-    + apply player_two_cell_ok; try assumption; lia.
-    + apply player_one_down_cell_ok; try assumption; [lia|]. intros w E. discriminate.
-    + apply player_one_left_right_cell_ok; try assumption; try lia. apply Hmoves; assumption.
-    + apply prob_tile_break_cell_ok; try assumption; lia.
-    + apply prob_robot_down_break_cell_ok; try assumption; lia.
-    + apply prob_robot_left_break_cell_ok; try assumption; lia.
-    + apply prob_robot_right_break_cell_ok; try assumption; lia.
+    + apply (player_two_cell_ok K L W); try assumption; lia.
+    + apply (player_one_down_cell_ok K L W); try assumption; [lia|]. intros w E. discriminate.
+    + apply (player_one_left_right_cell_ok K L W); try assumption; try lia. apply Hmoves; assumption.
+    + apply (prob_tile_break_cell_ok K L W); try assumption; lia.
+    + apply (prob_robot_down_break_cell_ok K L W); try assumption; lia.
+    + apply (prob_robot_left_break_cell_ok K L W); try assumption; lia.
+    + apply (prob_robot_right_break_cell_ok K L W); try assumption; lia.
   - repeat constructor; try discriminate; cbn [dst pb]; lia.
 Qed.
 
@@ -443,17 +443,165 @@ Lemma gen_C_rows_ok : rows_ok (n * 10 + 2) (g_trans (gen_C K L W moves rewards l
 Proof.
   pose proof n_pos. rewrite gen_C_trans. unfold rows_ok. apply Forall_groups.
   - cells_ok.
-    + apply player_two_cell_ok; try assumption; lia.
-    + apply player_one_down_cell_ok; try assumption; [lia|]. intros w E. discriminate.
-    + apply player_one_left_right_cell_ok; try assumption; try lia. apply Hmoves; assumption.
-    + apply player_one_down_left_right_cell_ok; try assumption; try lia. apply Hmoves; assumption.
-    + apply prob_tile_break_cell_ok; try assumption; lia.
-    + apply prob_robot_down_break_cell_ok; try assumption; lia.
-    + apply prob_robot_left_break_cell_ok; try assumption; lia.
-    + apply prob_robot_right_break_cell_ok; try assumption; lia.
-    + apply prob_light_break_cell_ok; try assumption; lia.
-    + apply prob_light_break_cell_ok; try assumption; lia.
+    + apply (player_two_cell_ok K L W); try assumption; lia.
+    + apply (player_one_down_cell_ok K L W); try assumption; [lia|]. intros w E. discriminate.
+    + apply (player_one_left_right_cell_ok K L W); try assumption; try lia. apply Hmoves; assumption.
+    + apply (player_one_down_left_right_cell_ok K L W); try assumption; try lia. apply Hmoves; assumption.
+    + apply (prob_tile_break_cell_ok K L W); try assumption; lia.
+    + apply (prob_robot_down_break_cell_ok K L W); try assumption; lia.
+    + apply (prob_robot_left_break_cell_ok K L W); try assumption; lia.
+    + apply (prob_robot_right_break_cell_ok K L W); try assumption; lia.
+    + apply (prob_light_break_cell_ok K L W); try assumption; lia.
+    + apply (prob_light_break_cell_ok K L W); try assumption; lia.
   - repeat constructor; try discriminate; cbn [dst pb]; lia.
 Qed.
 
 End GenValid.
+
+(** * C11: lengths, validation, absorbing end states (generic) *)
+Section GenFacts.
+Context {T : Type} (K : ops T).
+Variables (L W : nat) (moves : nat -> nat -> nat) (rewards : nat -> nat -> T)
+          (loose : nat -> nat -> nat) (ptb prb plb : T).
+Notation n := (L * W).
+Notation gA := (gen_A K L W moves rewards loose ptb).
+Notation gB := (gen_B K L W moves rewards loose ptb prb).
+Notation gC := (gen_C K L W moves rewards loose ptb prb plb).
+
+Definition lengths_are (g : game (T:=T)) (N : nat) : Prop :=
+  length (g_rewards g) = N /\ length (g_players g) = N /\ length (g_trans g) = N.
+
+Lemma gen_A_lengths : lengths_are gA (4 * (L * W) + 2) /\ g_finals gA = [4 * (L * W) + 1].
+Proof.
+  unfold lengths_are. rewrite gen_A_rewards, gen_A_players, gen_A_trans, gen_A_finals.
+  rewrite my_rewards_length, my_players_length, groups_length. cbn [length cells_A cells_A_with tail_of].
+  repeat split; try lia. f_equal. lia.
+Qed.
+Lemma gen_B_lengths : lengths_are gB (7 * (L * W) + 2) /\ g_finals gB = [7 * (L * W) + 1].
+Proof.
+  unfold lengths_are. rewrite gen_B_rewards, gen_B_players, gen_B_trans, gen_B_finals.
+  rewrite my_rewards_length, my_players_length, groups_length. cbn [length cells_B tail_of].
+  repeat split; try lia. f_equal. lia.
+Qed.
+Lemma gen_C_lengths : lengths_are gC (10 * (L * W) + 2) /\ g_finals gC = [10 * (L * W) + 1].
+Proof.
+  unfold lengths_are. rewrite gen_C_rewards, gen_C_players, gen_C_trans, gen_C_finals.
+  rewrite my_rewards_length, my_players_length, groups_length. cbn [length cells_C tail_of].
+  repeat split; try lia. f_equal. lia.
+Qed.
+
+(* the last two states: losing (absorbing, not final) and winning (absorbing, the only final) *)
+Definition absorbing_ends (g : game (T:=T)) (N : nat) : Prop :=
+  nth (N - 2) (g_trans g) [] = [mkT ""%string (one K) (N - 2)] /\
+  nth (N - 1) (g_trans g) [] = [mkT ""%string (one K) (N - 1)] /\
+  nth (N - 2) (g_players g) PR = PR /\ nth (N - 1) (g_players g) PR = PR /\
+  g_finals g = [N - 1] /\ mem_nat (N - 2) (g_finals g) = false /\ mem_nat (N - 1) (g_finals g) = true.
+
+Lemma mem_single_neq a b : a <> b -> mem_nat a [b] = false.
+Proof. intros H. unfold mem_nat. cbn. rewrite orb_false_r. apply Nat.eqb_neq. assumption. Qed.
+Lemma mem_single_eq a : mem_nat a [a] = true.
+Proof. unfold mem_nat. cbn. rewrite Nat.eqb_refl. reflexivity. Qed.
+
+Lemma ends_players a b total : total = 1 + a + b ->
+  nth (total * n) (my_players L W a b) PR = PR /\ nth (total * n + 1) (my_players L W a b) PR = PR.
+Proof.
+  intros ->. rewrite !my_players_nth.
+  split.
+  - destruct (Nat.ltb_spec ((1 + a + b) * n) n); [nia|].
+    destruct (Nat.ltb_spec ((1 + a + b) * n) (n + n * a)); [nia|reflexivity].
+  - destruct (Nat.ltb_spec ((1 + a + b) * n + 1) n); [nia|].
+    destruct (Nat.ltb_spec ((1 + a + b) * n + 1) (n + n * a)); [nia|reflexivity].
+Qed.
+
+Lemma ends_generic (g : game (T:=T)) fs total a b :
+  g_trans g = chain (map (grid L W) fs) (tail_of K L W total) -> length fs = total ->
+  g_players g = my_players L W a b -> total = 1 + a + b -> g_finals g = [n * total + 1] ->
+  absorbing_ends g (total * n + 2).
+Proof.
+  intros Ht Hl Hp Htot Hf. unfold absorbing_ends. rewrite Ht, Hp, Hf.
+  replace (total * n + 2 - 2) with (length fs * n + 0) by (rewrite Hl; lia).
+  replace (total * n + 2 - 1) with (length fs * n + 1) by (rewrite Hl; lia).
+  rewrite !nth_groups_tail. cbn [nth tail_of]. rewrite Hl.
+  destruct (ends_players a b total Htot) as [E1 E2].
+  replace (total * n + 0) with (total * n) by lia. rewrite E1, E2.
+  replace (n * total) with (total * n) by lia. unfold pb.
+  repeat split; try reflexivity; [apply mem_single_neq; lia|apply mem_single_eq].
+Qed.
+
+Lemma gen_A_ends : absorbing_ends gA (4 * (L * W) + 2).
+Proof. apply (ends_generic gA (cells_A K L W moves loose ptb) 4 2 1); reflexivity. Qed.
+Lemma gen_B_ends : absorbing_ends gB (7 * (L * W) + 2).
+Proof. apply (ends_generic gB (cells_B K L W moves loose ptb prb) 7 2 4); reflexivity. Qed.
+Lemma gen_C_ends : absorbing_ends gC (10 * (L * W) + 2).
+Proof. apply (ends_generic gC (cells_C K L W moves loose ptb prb plb) 10 3 6); reflexivity. Qed.
+
+End GenFacts.
+
+Section GenValidates.
+Context {T : Type} (K : ops T).
+Variables (L W : nat) (moves : nat -> nat -> nat) (rewards : nat -> nat -> T)
+          (loose : nat -> nat -> nat) (ptb prb plb : T).
+Hypothesis HL : 1 <= L.
+Hypothesis HW : 1 <= W.
+Hypothesis Hmoves : forall i j, i < L -> j < W -> moves i j <= 3.
+Hypothesis Hzero : ltb K (zero K) (zero K) = false.
+Hypothesis Hrewards : forall i j, i < L -> j < W -> ltb K (rewards i j) (zero K) = false.
+Notation n := (L * W).
+
+Definition validates (g : game (T:=T)) (N : nat) : Prop :=
+  check_game K g = Ok tt /\ exists sl, init_states K g = Ok sl /\ length sl = N.
+
+Lemma my_rewards_nonneg total :
+  Forall (fun r => ltb K r (zero K) = false) (my_rewards K L W rewards total).
+Proof.
+  unfold my_rewards. apply Forall_app. split; [apply Forall_grid; assumption|].
+  apply Forall_app. split; [|repeat constructor; assumption].
+  apply Forall_forall. intros x Hx. apply repeat_spec in Hx. subst x. assumption.
+Qed.
+
+Lemma validates_generic (g : game (T:=T)) N total f :
+  lengths_are g N -> 0 < N -> g_rewards g = my_rewards K L W rewards total ->
+  g_finals g = [f] -> f < N -> rows_ok N (g_trans g) -> validates g N.
+Proof.
+  intros (H1 & H2 & H3) Hpos Hr Hf HfN Hrows. unfold validates. split.
+  - apply (check_game_ok K g f); try congruence; try lia.
+    rewrite Hr. apply my_rewards_nonneg.
+  - assert (Hr' : rows_ok (length (g_players g)) (g_trans g)) by (rewrite H2; assumption).
+    destruct (init_states_ok K g ltac:(congruence) ltac:(congruence) Hr') as (sl & E & Hlen).
+    exists sl. split; [assumption|congruence].
+Qed.
+
+Lemma gen_A_validates : validates (gen_A K L W moves rewards loose ptb) (4 * (L * W) + 2).
+Proof.
+  destruct (gen_A_lengths K L W moves rewards loose ptb) as [Hl Hf].
+  apply (validates_generic _ _ 4 (4 * n + 1)); try assumption; try lia; try reflexivity.
+  replace (4 * n + 2) with (n * 4 + 2) by lia. apply gen_A_rows_ok; assumption.
+Qed.
+Lemma gen_B_validates : validates (gen_B K L W moves rewards loose ptb prb) (7 * (L * W) + 2).
+Proof.
+  destruct (gen_B_lengths K L W moves rewards loose ptb prb) as [Hl Hf].
+  apply (validates_generic _ _ 7 (7 * n + 1)); try assumption; try lia; try reflexivity.
+  replace (7 * n + 2) with (n * 7 + 2) by lia. apply gen_B_rows_ok; assumption.
+Qed.
+Lemma gen_C_validates : validates (gen_C K L W moves rewards loose ptb prb plb) (10 * (L * W) + 2).
+Proof.
+  destruct (gen_C_lengths K L W moves rewards loose ptb prb plb) as [Hl Hf].
+  apply (validates_generic _ _ 10 (10 * n + 1)); try assumption; try lia; try reflexivity.
+  replace (10 * n + 2) with (n * 10 + 2) by lia. apply gen_C_rows_ok; assumption.
+Qed.
+
+End GenValidates.
+
+(** * Every state index is a cell of a group, or one of the two end states *)
+Lemma state_decomp L W total s : s < total * (L * W) + 2 ->
+  (exists g i j, g < total /\ i < L /\ j < W /\ s = g * (L * W) + i * W + j)
+  \/ s = total * (L * W) \/ s = total * (L * W) + 1.
+Proof.
+  intros Hs. destruct (Nat.lt_ge_cases s (total * (L * W))) as [H|H]; [left|right; lia].
+  assert (Hn : L * W <> 0) by (intros E; rewrite E in H; lia).
+  destruct (cell_decomp L W (s mod (L * W))) as (i & j & Hi & Hj & E).
+  { apply Nat.mod_upper_bound. assumption. }
+  exists (s / (L * W)), i, j. repeat split; try assumption.
+  - apply Nat.div_lt_upper_bound; [assumption|lia].
+  - rewrite <- Nat.add_assoc, <- E. rewrite (Nat.div_mod s (L * W)) at 1 by assumption. lia.
+Qed.
